@@ -195,7 +195,22 @@ def concretise(model, v: V, max_len=8, str_table=None):
     if isinstance(v, Obj):
         return {"obj": v.cls, "fields": {k: concretise(model, x, max_len, str_table) for k, x in v.fields.items()}}
     if isinstance(v, Opq):
-        return {"opaque": v.kind, "id": str(model.eval(v.t, model_completion=True))}
+        out = {"opaque": v.kind, "id": str(model.eval(v.t, model_completion=True))}
+        if v.kind == "Geometry":
+            # what the model says about this geometry: its type tag and bounds (the uninterpreted functions of
+            # props/common.opaque_geometry_specs) -- enough for the replayer to build a real geometry with those bounds
+            try:
+                from .values import StrSort
+                gs = v.t.sort()
+                bs = [_val(model, z3.Function(f"bounds_{k}", gs, z3.RealSort())(v.t)) for k in range(4)]
+                out["bounds"] = [float(b) if not isinstance(b, str) else None for b in bs]
+                tval = model.eval(z3.Function("geometry_type", gs, StrSort)(v.t), model_completion=True)
+                for s_, c_ in (str_table or {}).items():
+                    if z3.is_true(model.eval(c_ == tval, model_completion=True)):
+                        out["type"] = s_
+            except Exception:
+                pass
+        return out
     if isinstance(v, Dct):
         return {"dict": [[concretise(model, k, max_len, str_table), concretise(model, x, max_len, str_table)] for k, x in v.pairs]}
     return {"unmodelled": type(v).__name__}
